@@ -44,6 +44,15 @@ CHECKS["C15"] = {"technique": "per-building-block order/layout coherence over th
 CHECKS["C20"] = {"technique": "checks-before-effects ordering over the abstract execution: rejection inventory, no write event on any rejection path, validation loops completed before the first write",
   "text": "On every path ending in an argument-kind ValueError (and aggregator rejection in backward) no .grad write event precedes the raise; all requested parameter collections pass the expects-grad check in completed loops before the first write, so the position of an offending argument cannot matter.",
   "note": PIPE}
+CHECKS["C07"] = {"technique": "polynomial normal form of the row-slice bounds (loop index, ceil/floordiv as derived symbols) with exhaustive evaluation of the extracted index expressions as fallback; CFG exactly-once and guarded-by predicates",
+  "text": "The row blocks are proved to be [i·k,(i+1)·k) for i < ceil(m/k)−1 plus the open-ended remainder (normal forms equal), or — for any other arithmetic — the extracted expressions are evaluated for all m ≤ 12, k ∈ {None,1..m+2}: ordered partition, non-empty, ≤ k rows, ceil(m/k) blocks. One chunk-routine call per block, one VJP application per call, one autograd.grad per VJP; vmap only on the negative edge of 'this block has one row'. vmap ≡ sequential numerically is not decided.",
+  "note": PIPE}
+CHECKS["C12"] = {"technique": "differential comparison of abstract event sequences (defaulted vs explicit call, after renaming the discovered collections), call-site role extraction, loop-carried overwrite rule, CFG guard analysis of the traversal",
+  "text": "The defaulted call executes the same event sequences as the explicit one on every non-empty path; the three discovery call sites receive the documented (tensors, excluded) roles in the order of the losses; the overlap check sees all tasks and comes first; every successor adoption in the graph walk is guarded by not-None and not-visited/excluded tests on that successor and marks it. torch's leaf/AccumulateGrad correspondence is not decided.",
+  "note": PIPE + "; traversal idiom recognised in enumerated forms"}
+CHECKS["C14"] = {"technique": "who-may-override / who-may-call rules, dominance on CFGs, abstract execution of the real constructors and of check_keys_are over symbolic key sets under all set relations, class-table LCA cross-check",
+  "text": "For all terms at once: the key check dominates _compute and cannot be overridden or bypassed; check_keys_are / Composition / Conjunction reject exactly the unequal / overlapping scenarios (adjacent or not) and accept the equal / disjoint ones; every runtime key check of the real pipelines is decided equal (declared = computed keys); LCA of all 36 ordered pairs of dictionary types matches the class table; mutators always raise; construction checks dominate storage and visit every pair.",
+  "note": "symbolic key sets are non-empty and pairwise disjoint atoms; " + PIPE}
 NA_PENDING = "check not built yet in this commit (planned, see DESIGN.md section 5)"
 NOT_APPLICABLE = {
  "C04": "Non-conflict is a numerical inequality on the outputs of a QP, a Frank-Wolfe loop and a conic solver with input-dependent allowances; no clause of it is visible in the shape of the code.",
